@@ -174,7 +174,7 @@ def _check(case, obs):
                 raise Violation("output-rail-chain", prob, _detail(cfg, t, **sig))
             if present_any:
                 # (b) a text that reaches the caller has passed the complete chain ...
-                if len(entries) < len(m["calls"]):
+                if len(entries) < m["need"]:
                     raise Violation(
                         "unchecked-llm-text-in-reply",
                         f"{tag}: the reply carries the text but output rails invoked on it were {[e['rail'] for e in entries]}, configured chain is {[c['rail'] for c in m['calls']]}; reply {text[:120]!r}",
@@ -190,18 +190,17 @@ def _check(case, obs):
                 # ... and is returned in its final form only
                 if m["final"] not in text or (m["final"] != m["orig"] and present_raw):
                     raise Violation("rewrite-not-returned", f"{tag}: expected the reply to carry {m['final']} (and not the original), got {text[:120]!r}", _detail(cfg, t, **sig))
-            if m["blocked"] is not None and len(entries) == len(m["calls"]):
-                # (c) the rejection was delivered: refusal (or rail exception) is the answer
-                i = m["blocked"]
-                kind = cfg["out"][i]
+            if m["blocked"] is not None and len(entries) >= m["need"]:
+                # (c) the rejection was delivered: the refusal (or rail exception) of a rejecting rail is the answer
+                rej = [i for i, c in enumerate(m["calls"][: len(entries)]) if c["verdict"] == "reject"]
                 if cfg["exc"]:
-                    want = block_message("out", i, kind)
-                    if not any(e.get("type") == "OutputRailException" and e.get("message") == want for e in excs):
-                        raise Violation("refusal-missing", f"{tag}: expected an OutputRailException with message {want!r}, reply was {o['reply']!r}"[:600], _detail(cfg, t, **sig))
+                    wants = [block_message("out", i, cfg["out"][i]) for i in rej]
+                    if not any(e.get("type") == "OutputRailException" and e.get("message") in wants for e in excs):
+                        raise Violation("refusal-missing", f"{tag}: expected an OutputRailException with message {wants!r}, reply was {o['reply']!r}"[:600], _detail(cfg, t, **sig))
                 else:
-                    want = refusal_text("out", i, kind)
-                    if want not in text:
-                        raise Violation("refusal-missing", f"{tag}: rail out{i} rejected, its refusal {want!r} is not in the reply {text[:160]!r}", _detail(cfg, t, **sig))
+                    wants = [refusal_text("out", i, cfg["out"][i]) for i in rej]
+                    if not any(w in text for w in wants):
+                        raise Violation("refusal-missing", f"{tag}: rail out{rej[0]} rejected, its refusal {wants[0]!r} is not in the reply {text[:160]!r}", _detail(cfg, t, **sig))
             if entries and ("reject" in verdicts or "rewrite" in verdicts):
                 events_at.append(t)
                 labels.append("reject" if m["blocked"] is not None else "rewrite")
